@@ -886,9 +886,16 @@ class EditableParentImpl(BaseParentImpl):
             space, cells, param,
             space_params, cells_params)
 
+    def _check_ref_name(self, name):
+        """Raise if assigning to ``name`` would not bind a Reference"""
+        if name in self.namespace and name not in self.refs:
+            raise KeyError("cannot assign '%s'" % name)
+
     def new_excel_range(self, name, path, range_, sheet, keyids, loadpath):
 
         from modelx.io.excelio import ExcelRange
+
+        self._check_ref_name(name)
 
         cargs = {"range_": range_,
                  "sheet": sheet,
@@ -912,6 +919,8 @@ class EditableParentImpl(BaseParentImpl):
     def new_pandas(self, name, path, data, file_type, sheet):
 
         from modelx.io.pandasio import PandasData
+
+        self._check_ref_name(name)
         spec = self.system.iomanager.new_spec(
             PandasData,
             io_group=self.model.interface,
@@ -931,6 +940,7 @@ class EditableParentImpl(BaseParentImpl):
 
         from modelx.io.moduleio import ModuleData
 
+        self._check_ref_name(name)
         spec = self.system.iomanager.new_spec(
             ModuleData,
             io_group=self.model.interface,
